@@ -102,7 +102,7 @@ def _refine(e, pol, env, watch):
     return [env]
 
 
-def simulate(g, start, stops, env, track=(), watch=()):
+def simulate(g, start, stops, env, track=(), watch=(), fnode=None, params=()):
     """explore the CFG from `start` with constant propagation of the locals in env; stop at nodes in `stops` (not expanded).
     Returns [(stop node, env dict, frozenset of tracked nodes visited)]; a (node, env, visited) state is expanded once."""
     out = []
@@ -155,8 +155,12 @@ def simulate(g, start, stops, env, track=(), watch=()):
                 if isinstance(nm, ast.Name):
                     e.pop(nm.id, None)
         succ = list(g.succ[n])
+        test_ast = n.ast
+        if n.kind == 'test' and fnode is not None:
+            # a boolean local that stands for an expression over the watched observations (`keep_running = a and b and c`) is tested as that expression
+            test_ast = expand_locals(n.ast, fnode, params=params, observers=True)
         if n.kind == 'test':
-            v = evaluate(n.ast, e)
+            v = evaluate(test_ast, e)
             if v is not UNKNOWN:
                 lab = 'true' if v else 'false'
                 succ = [(m, l) for m, l in succ if l == lab or l not in ('true', 'false')]
@@ -165,7 +169,7 @@ def simulate(g, start, stops, env, track=(), watch=()):
                 continue
             variants = [e]
             if n.kind == 'test' and watch and l in ('true', 'false'):
-                variants = _refine(n.ast, l == 'true', e, watch)
+                variants = _refine(test_ast, l == 'true', e, watch)
             for e2 in variants:
                 todo.append((m, tuple(sorted(e2.items(), key=lambda kv: kv[0])), vis))
     return out
@@ -205,7 +209,10 @@ def must_atoms(g, node, fnode, params=()):
                   and any(y is d for y in ast.walk(m.ast.value))]
             if len(dn) != 1 or not g.dominates(dn[0], x):
                 return False
-            between = (g.reachable(dn[0]) & g.reachable(x, forward=False)) - {dn[0], x}
+            # the nodes on the segments  definition -> test  that do not pass through the definition again (loops re-execute it)
+            fwd = g.reachable([m_ for m_, _l in g.succ[dn[0]] if m_ is not dn[0]], avoiding=[dn[0]])
+            bwd = g.reachable([m_ for m_, _l in g.pred[x] if m_ is not dn[0]], avoiding=[dn[0]], forward=False) if x is not dn[0] else set()
+            between = (fwd & bwd) - {dn[0], x}
             for m in between:
                 if m.kind in ('entry', 'exit', 'xexit', 'def'):
                     continue
@@ -232,13 +239,13 @@ def reachable_under(g, node, facts, env=None):
     return any(stop is node for stop, _env, _vis in simulate(g, g.entry, {node}, e))
 
 
-def values_at(g, node, watch, env=None):
+def values_at(g, node, watch, env=None, fnode=None, params=()):
     """the valuations of the watched boolean expressions (attribute paths, call texts) with which `node` can be reached: a list of dicts
     {expression text: True/False} (absent = unknown) - path-sensitive constant propagation through tests, assignments, and/or/not"""
     out = []
     if node is g.entry:
         return [{}]
-    for stop, e, _vis in simulate(g, g.entry, {node}, dict(env or {}), watch=set(watch)):
+    for stop, e, _vis in simulate(g, g.entry, {node}, dict(env or {}), watch=set(watch), fnode=fnode, params=params):
         if stop is node:
             out.append({k[1:]: v for k, v in e.items() if k.startswith('=')})
     return out
